@@ -174,7 +174,7 @@ class PhystFrame:
             columns = list(columns)
 
         if len(columns) == 1:
-            return physt.h1(data, bins=bins, **kwargs)
+            return physt.h1(data[columns[0]], bins=bins, **kwargs)
         if len(columns) == 2:
             return physt.h2(data[columns[0]], data[columns[1]], bins=bins, **kwargs)
         # TODO: Check numeric dtypes ?
